@@ -49,7 +49,7 @@ pub mod dist {
     /// One runtime per harness process (building one per case costs ~1 s of thread start-up each).
     pub fn runtime() -> &'static tokio::runtime::Runtime {
         static RT: std::sync::OnceLock<tokio::runtime::Runtime> = std::sync::OnceLock::new();
-        RT.get_or_init(|| tokio::runtime::Builder::new_multi_thread().worker_threads(2).enable_all().build().expect("tokio runtime"))
+        RT.get_or_init(|| tokio::runtime::Builder::new_multi_thread().worker_threads(4).enable_all().build().expect("tokio runtime"))
     }
 
     /// Data spec: {"seed":u64,"f_rows":n,"f_files":k,"f_rg":rows per row group,"g_rows":n,"g_files":k,"g_rg":r,"kdom":d,"nulls":pct}
